@@ -651,6 +651,65 @@ def run(chk):
     chk.oracle('label_path_loss_and_precision', lcases, o_label, key_fn=lambda c: json.dumps(obj_of(*c), sort_keys=True), max_report=50)
     _attach_cases(chk, 'label_path_loss_and_precision', lcases, o_label)
 
+    # ------------------------------------------------------------------ oracle 6: m/z with precision (0 included), charge >= 2
+    from decimal import Decimal as _D, ROUND_HALF_EVEN as _RHE
+
+    def half_even(x, p):
+        return float(_D(x).quantize(_D(1).scaleb(-p), rounding=_RHE))
+
+    mzp = []
+    for _ in range(200 if tier == 'quick' else 5000):
+        a = cm.gen_annotation(rng, kinds=['num', 'formula', 'named'], max_len=10, charge_p=0.4, static_p=0.1)
+        a._charge_adducts = None
+        z = rng.choice([2, 2, 3, 4, 5])
+        in_string = rng.random() < 0.4
+        if in_string:
+            a._charge = z
+        else:
+            a._charge = None
+        kw = {'monoisotopic': rng.random() < 0.5, 'precision': rng.choice([0, 0, 0, 1, 2, 3])}
+        if not in_string:
+            kw['charge'] = z
+        mzp.append((a, kw, z))
+    mz_lines = [cm.line('spec_mass', a, {k: v for k, v in kw.items() if k != 'precision'},
+                        overrides=spec_overrides(a, kw, nuc, avg), prefix=('nist',)) for a, kw, _ in mzp]
+    mz_ref = dict(zip(map(id, mzp), chk.driver(DRV, mz_lines)))
+
+    def o_mzp(c):
+        a, kw, z = c
+        ref = mz_ref[id(c)]
+        if not ref.startswith('ok '):
+            return None
+        ref = float(ref[3:])
+        p = kw['precision']
+        tol = (1e-5 if kw['monoisotopic'] else 2e-3)
+        got = pt.mz(a.copy(), **kw)
+        if abs(got - half_even(got, p)) > 1e-9:
+            return f'mz(precision={p}) = {got!r} is not rounded to {p} decimals'
+        if abs(got - ref / z) > 0.5 * 10.0 ** -p + tol:
+            return f'mz(precision={p}) = {got!r}, reference mass / charge = {ref / z!r} (charge {z})'
+        gm = pt.mass(a.copy(), **kw)
+        if abs(gm - half_even(gm, p)) > 1e-9 or abs(gm - ref) > 0.5 * 10.0 ** -p + tol:
+            return f'mass(precision={p}) = {gm!r}, reference {ref!r}'
+        raw = pt.mass(a.copy(), **{k: v for k, v in kw.items() if k != 'precision'})
+        for pp in (0, 1, 4):
+            d = mass_calc.adjust_mz(raw, z, pp)
+            if d != half_even(raw / z, pp):
+                return f'adjust_mz({raw!r}, {z}, {pp}) = {d!r}, round-half-even of the quotient is {half_even(raw / z, pp)!r}'
+        d0 = mass_calc.adjust_mz(raw, z, None)
+        if d0 != raw / z:
+            return f'adjust_mz({raw!r}, {z}, None) = {d0!r}, quotient {raw / z!r}'
+        return None
+
+    chk.oracle('mz_with_precision', mzp, o_mzp, key_fn=lambda c: json.dumps(obj_of(c[0], c[1]), sort_keys=True), max_report=20)
+    for f in chk.failures:
+        if f['oracle'] == 'mz_with_precision' and not isinstance(f['case'], dict):
+            for c in mzp:
+                if repr(c) == f['case']:
+                    f['case'] = obj_of(c[0], c[1])
+                    f['function'] = 'peptacular.mz / peptacular.mass_calc.adjust_mz'
+                    break
+
     # ------------------------------------------------------------------ oracle 5: call sequences (no state may leak between calls)
     from peptacular.chem import chem_calc as _cc2
     seq_cases = []
